@@ -11,6 +11,7 @@ import (
 	"sort"
 	"strconv"
 	"strings"
+	"sync"
 	"time"
 )
 
@@ -158,15 +159,29 @@ func cmdCheck(args []string) {
 	// vacuity: the assumptions of every function must be satisfiable together with some exit
 	vac := map[string]string{}
 	brokenCheck := []string{}
-	for _, res := range results {
-		if res.VC == nil {
-			continue
+	{
+		var mu sync.Mutex
+		var wg sync.WaitGroup
+		sem := make(chan struct{}, 16)
+		for _, res := range results {
+			if res.VC == nil {
+				continue
+			}
+			wg.Add(1)
+			go func(res *FuncResult) {
+				defer wg.Done()
+				sem <- struct{}{}
+				v := res.VC.vacuity(vcDir)
+				<-sem
+				mu.Lock()
+				vac[res.Short] = v
+				if strings.HasPrefix(v, "VACUOUS") {
+					brokenCheck = append(brokenCheck, res.Short+": "+v)
+				}
+				mu.Unlock()
+			}(res)
 		}
-		v := res.VC.vacuity(vcDir)
-		vac[res.Short] = v
-		if strings.HasPrefix(v, "VACUOUS") {
-			brokenCheck = append(brokenCheck, res.Short+": "+v)
-		}
+		wg.Wait()
 	}
 
 	total, discharged := 0, 0
@@ -330,22 +345,22 @@ func cmdCheck(args []string) {
 		}
 	}
 	cov := map[string]interface{}{
-		"obligations":          total,
-		"discharged":           discharged,
-		"checker_cmd":          "govc check -prop " + *prop + " -tier " + *tier + "  (z3-new -T:" + fmt.Sprint(quickSec) + " | z3 4.8.12 / cvc5 -T:" + fmt.Sprint(slowSec) + ")",
-		"trusted_base":         trusted,
-		"functions":            freps,
+		"obligations":              total,
+		"discharged":               discharged,
+		"checker_cmd":              "govc check -prop " + *prop + " -tier " + *tier + "  (z3-new -T:" + fmt.Sprint(quickSec) + " | z3 4.8.12 / cvc5 -T:" + fmt.Sprint(slowSec) + ")",
+		"trusted_base":             trusted,
+		"functions":                freps,
 		"functions_under_contract": len(keys),
-		"solver_time_s":        roundMap(solverTime),
-		"samples":              samples,
-		"failed_obligations":   failedNames,
-		"known_findings_hit":   knownHit,
-		"fixed_findings":       fixed,
-		"undecided":            undecided,
-		"oracle_fallback":      oracleNote,
-		"bounded":              boundedInfo,
-		"broken_check":         brokenCheck,
-		"vc_dir":               vcDir,
+		"solver_time_s":            roundMap(solverTime),
+		"samples":                  samples,
+		"failed_obligations":       failedNames,
+		"known_findings_hit":       knownHit,
+		"fixed_findings":           fixed,
+		"undecided":                undecided,
+		"oracle_fallback":          oracleNote,
+		"bounded":                  boundedInfo,
+		"broken_check":             brokenCheck,
+		"vc_dir":                   vcDir,
 	}
 	ev := map[string]interface{}{
 		"property_id": *prop,
